@@ -382,3 +382,54 @@ func VP_C07_ProfileRays() {
 	vp.Assert(vp.Implies(vp.And(t > 0, vp.Or(strictSide, strictCap)), found), "every transversal crossing of the surface is reported")
 	vp.Reach("end")
 }
+
+// VP_C08_BVH: grouping and hierarchy construction only reorder their input:
+// GroupBounders permutes the slice, NewBVHAreaDensity has every object in
+// exactly one leaf and BVHToCollider-style flattening sees them all. The n
+// objects have symbolic boxes (dims symbolic axes, the rest fixed) so that
+// every sort order and every split decision is explored.
+func VP_C08_BVH() {
+	n, dims := vp.Param("n"), vp.Param("dims")
+	names := []string{"A", "B", "C", "D", "E"}
+	var objs []*vpBoxSolid
+	for i := 0; i < n; i++ {
+		objs = append(objs, vpNewBoxSolidDims(names[i], dims))
+	}
+	grouped := append([]*vpBoxSolid{}, objs...)
+	GroupBounders(grouped)
+	vp.Assert(len(grouped) == n, "GroupBounders keeps the length")
+	for _, o := range objs {
+		cnt := 0
+		for _, g := range grouped {
+			if g == o {
+				cnt++
+			}
+		}
+		vp.Assert(cnt == 1, "GroupBounders only reorders its input: every object appears exactly once")
+	}
+	bvh := NewBVHAreaDensity(append([]*vpBoxSolid{}, objs...))
+	var leaves []*vpBoxSolid
+	var walk func(b *BVH[*vpBoxSolid])
+	walk = func(b *BVH[*vpBoxSolid]) {
+		if b.Leaf != nil {
+			leaves = append(leaves, b.Leaf)
+			return
+		}
+		vp.Assert(len(b.Branch) >= 2, "a branch has at least two children")
+		for _, c := range b.Branch {
+			walk(c)
+		}
+	}
+	walk(bvh)
+	vp.Assert(len(leaves) == n, "the hierarchy has one leaf per object")
+	for _, o := range objs {
+		cnt := 0
+		for _, l := range leaves {
+			if l == o {
+				cnt++
+			}
+		}
+		vp.Assert(cnt == 1, "every object is in exactly one leaf of the hierarchy")
+	}
+	vp.Reach("end")
+}
